@@ -66,13 +66,13 @@ func (g *tagger) title() (string, string) {
 	title, desc := "t", "d"
 	if g.edge("title", 6) {
 		ts := []string{strings.Repeat("t", 140), " x ", "é世", strings.Repeat("t", 141), "", "   "}
-		i := g.pick("title.edge", len(ts))
+		i := g.pick2("title.edge", 3, 3)
 		title = ts[i]
 		g.tag("title=" + []string{"max", "padded", "unicode", "max+1", "empty", "blank"}[i])
 	}
 	if g.edge("description", 6) {
 		ds := []string{strings.Repeat("d", 10000), " ", "\x00", strings.Repeat("d", 10001), ""}
-		i := g.pick("description.edge", len(ds))
+		i := g.pick2("description.edge", 3, 2)
 		desc = ds[i]
 		g.tag("description=" + []string{"max", "blank", "nul", "max+1", "empty"}[i])
 	}
@@ -189,7 +189,7 @@ func (g *tagger) hexAddress(name string, w *world) string {
 	g.tag(name + "=" + names[i])
 	s := pool[i].Hex()
 	if g.edge(name+".form", 20) {
-		switch g.pick(name+".form.edge", 6) {
+		switch g.pick2(name+".form.edge", 3, 3) {
 		case 0:
 			s = strings.ToLower(s)
 			g.tag(name + ".form=lower")
@@ -227,12 +227,12 @@ func (g *tagger) metadata(w *world) banktypes.Metadata {
 	m := newMetadata(base, name, symbol, 18)
 	if g.edge("meta.exponent", 30) {
 		es := []uint32{1, 255, 256, 1<<32 - 1, 77, 0}
-		i := g.pick("meta.exponent.edge", len(es))
+		i := g.pick2("meta.exponent.edge", 5, 1)
 		m.DenomUnits[1].Exponent = es[i]
 		g.tag(fmt.Sprintf("meta.exponent=%d", es[i]))
 	}
 	if g.edge("meta.units", 25) {
-		switch g.pick("meta.units.edge", 6) {
+		switch g.pick2("meta.units.edge", 3, 3) {
 		case 0:
 			m.DenomUnits = m.DenomUnits[:1]
 			m.Display = base
@@ -256,13 +256,13 @@ func (g *tagger) metadata(w *world) banktypes.Metadata {
 	}
 	if g.edge("meta.name", 20) {
 		ns := []string{strings.Repeat("N", 10000), "channel-0 世界", "x", "acoin", "Coin acoin", "\x00", ""}
-		i := g.pick("meta.name.edge", len(ns))
+		i := g.pick2("meta.name.edge", 6, 1)
 		m.Name = ns[i]
 		g.tag("meta.name=" + []string{"huge", "unicode", "1char", "registeredDenom", "registeredName", "nul", "empty"}[i])
 	}
 	if g.edge("meta.symbol", 15) {
 		ss := []string{"ibc" + strings.Repeat("S", 5000), "ibc世", "ibc", " "}
-		i := g.pick("meta.symbol.edge", len(ss))
+		i := g.pick2("meta.symbol.edge", 3, 1)
 		m.Symbol = ss[i]
 		g.tag("meta.symbol=" + []string{"huge", "unicode", "ibcOnly", "blank"}[i])
 	}
@@ -299,7 +299,7 @@ func (g *tagger) limitStrings() (period, limit, max, min string) {
 	}
 	period, limit, max, min = decStr(mags[pi]), decStr(lm), decStr(mx), decStr(mn)
 	if g.edge("limit.syntax", 15) {
-		switch g.pick("limit.syntax.edge", 7) {
+		switch g.pick2("limit.syntax.edge", 2, 5) {
 		case 0:
 			period = "+" + period
 			g.tag("limit.syntax=plusSign")
@@ -384,23 +384,23 @@ func genProposal(t *rapid.T, w *world, existing map[string]string) genContent {
 			addrs = append(addrs, a)
 		}
 		if g.edge("relayer.shape", 12) {
-			switch g.pick("relayer.shape.edge", 4) {
+			switch g.pick2("relayer.shape.edge", 2, 2) {
 			case 0:
 				chains = append(chains, chains[0])
 				addrs = append(addrs, "dup")
 				g.tag("relayer.chains=duplicate")
 			case 1:
-				addrs = addrs[:len(addrs)-1]
-				g.tag("relayer.shape=lengthMismatch")
-			case 2:
-				chains, addrs = nil, nil
-				g.tag("relayer.shape=empty")
-			default:
 				for i := 0; i < 200; i++ {
 					chains = append(chains, fmt.Sprintf("chain-%d", i))
 					addrs = append(addrs, "x")
 				}
 				g.tag("relayer.chains=200")
+			case 2:
+				addrs = addrs[:len(addrs)-1]
+				g.tag("relayer.shape=lengthMismatch")
+			default:
+				chains, addrs = nil, nil
+				g.tag("relayer.shape=empty")
 			}
 		}
 		out.ChainName = ""
@@ -417,10 +417,10 @@ func genProposal(t *rapid.T, w *world, existing map[string]string) genContent {
 	case aggregatetypes.ProposalTypeToggleTokenRelay:
 		var tok string
 		if rapid.Bool().Draw(t, "toggleByDenom") {
-			ds := []string{"acoin", "bcoin", "aggregate/" + w.tokReg.Hex(), "nosupply", "ab", strings.Repeat("d", 128), "A/B:c.d_e-f", ""}
-			i := rapid.IntRange(0, len(ds)-1).Draw(t, "toggleDenom")
+			ds := []string{"acoin", "bcoin", "aggregate/" + w.tokReg.Hex(), "nosupply", strings.Repeat("d", 128), "A/B-c", "ab", "A/B:c.d_e-f", ""}
+			i := g.pick2("toggleDenom", 6, 3)
 			tok = ds[i]
-			g.tag("toggle.denom=" + []string{"registeredCoin", "unregistered", "registeredAggregate", "unknown", "tooShort", "len128", "punctuation", "empty"}[i])
+			g.tag("toggle.denom=" + []string{"registeredCoin", "unregistered", "registeredAggregate", "unknown", "len128", "slashDash", "tooShort", "colonDot", "empty"}[i])
 		} else {
 			tok = g.hexAddress("toggle.token", w)
 		}
@@ -430,21 +430,21 @@ func genProposal(t *rapid.T, w *world, existing map[string]string) genContent {
 	case aggregatetypes.ProposalTypeRegisterERC20Trace:
 		oriToken, oriChain := "0x1111111111111111111111111111111111111111", "eth.main"
 		if g.edge("trace.originToken", 30) {
-			ts := []string{"", "  ", strings.Repeat("T", 5000), "世界", "\x00", "a/b"}
-			i := g.pick("trace.originToken.edge", len(ts))
+			ts := []string{strings.Repeat("T", 5000), "世界", "\x00", "a/b", "", "  "}
+			i := g.pick2("trace.originToken.edge", 4, 2)
 			oriToken = ts[i]
-			g.tag("trace.originToken=" + []string{"empty", "blank", "huge", "unicode", "nul", "slash"}[i])
+			g.tag("trace.originToken=" + []string{"huge", "unicode", "nul", "slash", "empty", "blank"}[i])
 		}
 		if g.edge("trace.originChain", 30) {
-			cs := []string{"", strings.Repeat("c", 5000), "a/b", "teleport_9000-1", "\xff\xfe"}
-			i := g.pick("trace.originChain.edge", len(cs))
+			cs := []string{strings.Repeat("c", 5000), "a/b", "teleport_9000-1", "\xff\xfe", ""}
+			i := g.pick2("trace.originChain.edge", 4, 1)
 			oriChain = cs[i]
-			g.tag("trace.originChain=" + []string{"empty", "huge", "slash", "native", "invalidUtf8"}[i])
+			g.tag("trace.originChain=" + []string{"huge", "slash", "native", "invalidUtf8", "empty"}[i])
 		}
 		scale := uint64(rapid.IntRange(0, 18).Draw(t, "trace.scale"))
 		if g.edge("trace.scale", 20) {
 			ss := []uint64{0, 18, 19, 256, ^uint64(0)}
-			scale = ss[g.pick("trace.scale.edge", len(ss))]
+			scale = ss[g.pick2("trace.scale.edge", 2, 3)]
 			g.tag("trace.scale=" + fmt.Sprint(scale))
 		}
 		out.Content = &aggregatetypes.RegisterERC20TraceProposal{Title: title, Description: desc, ERC20Address: g.hexAddress("trace.erc20", w),
